@@ -93,6 +93,8 @@ def gen_reqs(ctx, rng, j, info, cyclic):
             for st in starts:
                 tsu = rng.random() < 0.5
                 r = {'op': 'traverse', 'c': j, 'bfs': bfs, 'inverse': inv, 'topsort_unvisited': tsu}
+                if rng.random() < 0.4:
+                    r['peek'] = True      # the enter hook looks up the state of every gate
                 if st is not None:
                     r['start'] = st
                 reqs.append(r)
@@ -171,6 +173,8 @@ def check_one(ctx, rng, j, cyclic):
             for st in (None, [rng.choice(labels) for _ in range(rng.randint(0, 3))] if labels else None):
                 tsu = rng.random() < 0.5
                 req = {'op': 'traverse', 'c': j, 'bfs': bfs, 'inverse': inv, 'topsort_unvisited': tsu}
+                if rng.random() < 0.4:
+                    req['peek'] = True
                 if st is not None:
                     req['start'] = st
                 r = py_exec(req)
